@@ -6,6 +6,39 @@ from ..kernels import KernelEval, check_kernel, FAMILIES, MODES, BACKENDS
 from ..purity import table_purity
 
 
+def check_never_negative(ctx):
+    """R3: the scatter slot of every kernel is non-negative by construction in floating point (sign analysis E8)."""
+    import ast
+    from ..signs import Signs, NONNEG, CANCEL
+    from ..effects import Effects
+    from ..kernels import kernel_key
+    E = Effects(ctx.repo)
+
+    def resolve(key, call):
+        r = E.resolver(key)
+        f = call.func
+        nm = f.id if isinstance(f, ast.Name) else None
+        names = E.module_names(key.split("::")[0])
+        return names.get(nm) if nm else None
+    S = Signs(ctx.repo, resolve)
+    n = 0
+    for backend in BACKENDS:
+        for fam in FAMILIES:
+            for mode in MODES:
+                key = kernel_key(fam, mode, backend); n += 1
+                sg, wit, wkey = S.ret_slot(key, 4)
+                where = ctx.repo.where(key, ctx.repo.get(key))
+                if sg == NONNEG:
+                    ctx.holds("R3-never-negative", key, "M2 is a mean of sums of squares (or 0) on every return: non-negative whatever the rounding", where)
+                elif sg == CANCEL:
+                    ctx.violated("R3-never-negative", key, f"M2 is computed in {wkey} as a difference of two non-negative aggregates ({' '.join(ast.unparse(wit).split())[:120]}): "
+                                 "the single-pass form E|z|^2-|E z|^2 cancels catastrophically for quasi-deterministic data, rounding makes the variance negative and its root NaN",
+                                 f"{wkey.split('::')[0]}:{getattr(wit, 'lineno', 0)}")
+                else:
+                    ctx.unknown("R3-never-negative", key, f"sign of the scatter slot not decided at {' '.join(ast.unparse(wit).split())[:100] if wit is not None else '?'} in {wkey}", where)
+    ctx.need("kernels with a sign-decided scatter slot", n, 18)
+
+
 def check(ctx):
     T = Table(ctx.repo); ref = reference()
     ctx.analysed(GETATTR)
@@ -17,9 +50,11 @@ def check(ctx):
         for fam in FAMILIES:
             for mode in MODES:
                 check_kernel(ctx, KE, fam, mode, backend, outputs=("mu_r", "mu_i", "M2"), rule="R2-scatter-statistic")
+    check_never_negative(ctx)
     table_purity(ctx)
     ctx.trust("E4 partial evaluation of __getattr__", "E5 kernel summaries (L1, L2, L17)")
     ctx.assume("exact arithmetic; nan_to_num is the identity on finite values")
     return ("XY_emp_var = M2/navg, XY_emp_dev = sqrt(M2/navg), G{xx,xy}_emp_dev = 2/(fs*S2)*sqrt(M2/navg) and their applicability (None matrix) are "
             "compared as normal forms; M2 returned by all 18 backend kernels is compared with mean_j |xy_j - mean xy|^2 (divisor K, centred on the "
-            "mean, 0 for K<2) for every K regime. Declined: agreement with the analytic deviations for Gaussian data (statistical).")
+            "mean, 0 for K<2) for every K regime (NumPy kernels also with several chunks); the scatter slot is non-negative by construction in floating point "
+            "(sum of squares, no difference of aggregates). Declined: agreement with the analytic deviations for Gaussian data (statistical).")
